@@ -102,9 +102,9 @@ CHECKS = {
    "JSON validity and the document tree come from the harness's own reader (numbers kept as text); REAL within 2 ULP; integral-valued reals for INT and documents with numbers beyond f64 are not judged.",
    "DESIGN.md §3 C02"),
  "C09": (True,
-   "property-based testing / fuzz-style totality search with a semantic oracle: hazard-dialled statement and data generators x arbitrary input bytes x output formats x 5 time zones (one supervised child process per zone); exact-or-error judging of INT results",
+   "property-based testing / fuzz-style totality search with a semantic oracle: hazard-dialled statement and data generators x arbitrary input bytes x output formats x 6 time zones (one supervised child process per zone); exact-or-error judging of INT results",
    "Generated-input search for panics, aborts and hangs of the batch executor and the per-line engine on accepted (definition, query) pairs from the C01-C05 generators with extremes, zero divisors, huge subscripts, NaN/inf, DST-gap timestamps, and inputs mutated into arbitrary bytes; the build has overflow checks on, and INT results of select statements are additionally judged exact-or-error by the reference evaluator so that non-panicking wraps (`as` casts, wrapping ops) are seen. Each zone runs in its own supervised child; a crash is re-judged in isolation. Exploration, not proof.",
-   "Time zones: UTC, Europe/Stockholm, America/Sao_Paulo, Pacific/Apia, Australia/Lord_Howe (tzdata of the sandbox). A time-out is inconclusive unless it reproduces twice in isolation.",
+   "Time zones: UTC, Europe/Stockholm, America/Sao_Paulo, Pacific/Apia, Australia/Lord_Howe, America/Havana (tzdata of the sandbox). A time-out is inconclusive unless it reproduces twice in isolation.",
    "DESIGN.md §3 C09"),
 }
 
